@@ -1226,7 +1226,8 @@ def _oauth10a_signature(
 
 def _oauth_normalized_netloc(scheme: str, netloc: str) -> str:
     """Lowercases the authority and drops the scheme's default port (RFC 5849 3.4.1.2)."""
-    netloc = netloc.lower()
+    # Only host and port take part (they must match the Host header).
+    netloc = netloc.rpartition("@")[2].lower()
     host, sep, port = netloc.rpartition(":")
     if sep and (scheme.lower(), port) in (("http", "80"), ("https", "443")):
         netloc = host
